@@ -185,9 +185,7 @@ def run(prop, tier):
         list_with_own_digest_refused_before_play=sum(1 for e in events if e["via"] == "verify" and e["lparse"]
                                                      and e["lvalid"] and e["out"] == "err" and not e["digest"]),
     )
-    for k, n in reach.items():
-        if n == 0:
-            raise lib.MachineryError("vacuity: no observation of kind %r was recorded" % k)
+    unreached = sorted(k for k, n in reach.items() if n == 0)
 
     # ---- (3) traces: one per digest class, one per non-accepted play, one of class representatives
     t1 = time.time()
@@ -245,6 +243,11 @@ def run(prop, tier):
     selftest = None
     if tier == "thorough":
         selftest = binding_selftest(classes, plays, mk)
+
+    # a kind of observation that never occurred is a vacuity failure of the machinery only when the
+    # specification accepted everything (a rejected behaviour of the code may well be the reason)
+    if unreached and not val["rejected"]:
+        raise lib.MachineryError("vacuity: no observation of kind(s) %s was recorded" % ", ".join(unreached))
 
     # ---- (4) verdict ------------------------------------------------------
     verdict = lib.Verdict(prop, tier)
